@@ -8,6 +8,13 @@ From Coq Require Import List Bool Arith.
 Import ListNotations.
 Set Implicit Arguments.
 
+(* minersc contributeMpk (smartcontract/minersc/dkg.go), in the Contribute phase: the public
+   polynomial of a miner is recorded only if the sender is in the DKG miner set, has not
+   contributed yet, and the polynomial has exactly T coefficients (degree < T); the seed
+   theorems need every recorded polynomial to have at most T coefficients *)
+Definition va_mpk_accept (t : nat) (member already : bool) (len : nat) : bool :=
+  member && negb already && Nat.eqb len t.
+
 Section Admit.
 Variable Sh : Type.
 Variable va_tc_ok : Sh -> bool.      (* the share's timeout count equals the round's *)
